@@ -22,6 +22,12 @@ pub mod sync;
 
 // Internal utilities
 mod internal;
+
+/// Verification seam H10: start a fresh shadow-cell table (call at the top of every loom execution).
+#[cfg(all(loom, excsn_fibre_verif))]
+pub fn verif_shadow_reset() {
+  internal::verif_shadow::reset();
+}
 mod sync_util;
 mod async_util;
 
